@@ -1391,6 +1391,11 @@ def int_cands(v, bits):
         u = v % (1 << b)
         sgn = u - (1 << b) if u >= (1 << (b - 1)) else u
         out |= {str(u), str(sgn), "0" if u == 0 else hex(u), "0" if u == 0 else "0" + oct(u)[2:]}
+        if b < 64:
+            # a narrower value in a 64-bit stack slot: the bits above it are not defined by the ABI, compilers
+            # sign-extend an immediate (pushq) - the same value at its own width
+            x = sgn % (1 << 64)
+            out |= {str(x), hex(x), "0" + oct(x)[2:]} if x else set()
     return sorted(out)
 
 
@@ -1739,6 +1744,8 @@ def e2e_run(ctx, impl, funcs, tag, extra_opts=(), judge_ret=True, scripts=False,
         res = coq.run_cases(ctx, "e2e_" + re.sub(r"\W", "_", tag), PRE, defs, [
             ("bad", "bad_indices (fun x => match x with (a, r, ta, tr) => ok_args a ta && ok_ret r tr end) items 0")])
         bad = set(coq.parse_nat_list(res["bad"])) if res else set()
+        if bad and os.environ.get("C09_DEBUG"):
+            open("/var/tmp/C09-exp/bad-%s.v" % re.sub(r"\W", "_", tag), "w").write(defs + "\n(* bad: %r *)\n" % sorted(bad))
         for i, (f, pa, pr) in enumerate(items):
             out.append((f, ("replay shows %s%s" % f["shown"]) if i in bad else None))
         if explicit:
@@ -1891,13 +1898,16 @@ def e2e(ctx, impl):
             while simple < min(len(f["actual"]), 6) and f["actual"][simple][0] in ("txt", "strv", "null") and \
                     (f["actual"][simple][0] != "txt" or f["actual"][simple][2][0] in ("ints", "str", "anyint")):
                 simple += 1
-            cand = [j for j in range(simple) if f["actual"][j][0] in ("strv", "null") or f["actual"][j][2][0] == "ints"]
+            def numeric(a):
+                # a plain integer (its text candidates are numbers; an enum is shown by name only with its own spec)
+                return a[0] == "txt" and a[2][0] == "ints" and all(re.match(r"^-?\d|^0x", t) for t in a[1])
+            cand = [j for j in range(simple) if f["actual"][j][0] in ("strv", "null") or numeric(f["actual"][j])]
             if cand and ctx.rng.random() < 0.6:
                 j = ctx.rng.choice(cand)
                 spec = "arg%d/%s" % (j + 1, "s" if f["actual"][j][0] in ("strv", "null") else ctx.rng.choice(["x", "d", "u"]))
                 explicit[f["name"]] = {"A": spec, "j": j}
                 mixed += ["-A", "%s@%s" % (f["name"], spec)]
-            if f["ractual"] is not None and f["ractual"][0] == "txt" and f["ractual"][2][0] == "ints" and ctx.rng.random() < 0.4:
+            if f["ractual"] is not None and numeric(f["ractual"]) and ctx.rng.random() < 0.4:
                 explicit.setdefault(f["name"], {})["R"] = "retval/x"
                 mixed += ["-R", "%s@retval/x" % f["name"]]
         mixed += ["-A", "strcmp@arg2/s", "-R", "getenv@retval/p"]
